@@ -32,17 +32,16 @@ def scenarios(rng, tier):
     add("prof500", "protein", 8, 520, indel=0.06)
     add("small", "dna", 6, 30)
     add("eqlen", "dna", 240, 150, sub=0.15, indel=0.0)   # equal lengths, different content: every pairwise distance is computed in both roles
-    # two unrelated families of 150: both children of the first bisection are k-means nodes themselves (>= 100 sequences),
-    # so two k-means nodes (and their tries) run as concurrent tasks
-    fa, fb = gen.family(rng, 150, 60, gen.DNA, sub=0.12, indel=0.03), gen.family(rng, 150, 70, gen.DNA, sub=0.12, indel=0.03)
-    two = fa + fb
+    # two unrelated loose families of 150: both children of the first bisection are k-means nodes themselves (>= 100
+    # sequences), so two k-means nodes (and their tries) run as concurrent tasks; loose (star-like) families make the winning
+    # split sensitive to the centroids, so any interference between concurrent nodes changes the tree
+    two = [x + "LKEF" for x in gen.star(rng, 150, 90, gen.AA) + gen.star(rng, 150, 90, gen.AA)]
     rng.shuffle(two)
-    S.append(dict(id="km2fam", kind="dna", seqs=two, names=gen.names(rng, 300), type=5))
+    S.append(dict(id="km2fam", kind="protein", seqs=two, names=gen.names(rng, 300), type=5))
     if tier != "quick":
-        fa, fb, fc = (gen.family(rng, 210, 40, gen.AA, sub=0.15, indel=0.03) for _ in range(3))
-        three = [x + "LKEF" for x in fa + fb + fc]
-        rng.shuffle(three)
-        S.append(dict(id="km3fam", kind="protein", seqs=three, names=gen.names(rng, 630), type=5))
+        four = gen.star(rng, 120, 60, gen.DNA, 0.3) + gen.star(rng, 120, 60, gen.DNA, 0.3) + gen.star(rng, 120, 70, gen.DNA, 0.3) + gen.star(rng, 120, 50, gen.DNA, 0.3)
+        rng.shuffle(four)
+        S.append(dict(id="km4fam", kind="dna", seqs=four, names=gen.names(rng, 480), type=5))
         add("km300", "dna", 300, 120)
         add("km1000", "protein", 1000, 40)
         add("hirsch3", "rna", 6, 2300)
